@@ -110,6 +110,10 @@ TraceNext ==
                             /\ E.tl = 0 /\ E.bf = 0 /\ E.ovf = 0 /\ (dm.hel = 1 => E.el = 0) /\ elive = 0
                             /\ Step /\ UNCHANGED <<vars, arcOf, dm>>
        [] E.ev = "par"   -> ParOK(E) /\ Step /\ UNCHANGED <<vars, arcOf, dm>>
+       \* the type contract the model rests on: a Borrowed value cannot outlive what it borrows from (NewBorrowed never frees,
+       \* Peek of a Borrowed value is always safe) - enforced by lifetimes only; observed by compiling programs that let a
+       \* borrowed SharedString / KeyName / Label outlive a local String: each must be REJECTED by the borrow checker
+       [] E.ev = "api"   -> E.rejected = E.programs /\ E.programs > 0 /\ Step /\ UNCHANGED <<vars, arcOf, dm>>
        [] OTHER -> FALSE   \* crash / hang / panic / bad_program: not a behaviour
 
 TraceInit == Init /\ l = 1 /\ arcOf = <<>> /\ dm = [esz |-> 1, hdr |-> 16, al |-> 8, cnt |-> 0, hel |-> 0]
